@@ -12,7 +12,8 @@ RULE = ('router: histories of add-rule / remove-rule / deliver-message on Messag
         'interface, member, path, path_namespace, destination, argN, argNpath with values drawn from small pools built to '
         'contain matches, near-misses on a single key and sibling paths sharing a textual prefix (/a/b vs /a/bc), argument '
         'paths with and without trailing slash on either side; messages of all four types with bodies that are absent, too '
-        'short or non-string at the constrained index; one rule may constrain some arguments by value and others as '
+        'short or non-string at the constrained index; raising callbacks raise RuntimeError, a BaseException subclass, SystemExit or GeneratorExit; '
+        'one rule may constrain some arguments by value and others as '
         'paths; half of the messages are derived from one of the rules (satisfying all of it) with at most one '
         'constrained place perturbed; some callbacks raise. oracle: an independent matcher coded from the '
         'statement; after every delivery the multiset of invoked callbacks equals the active matching rules, once each. '
@@ -33,6 +34,10 @@ MEMBERS = ['Sig', 'Sig2', 'Si']
 DESTS = [':1.5', 'org.verif.D', ':1.6']
 ARGVALS = ['x', 'y', '', '/a/', '/a/b', '/a/b/', '/a/bc', '/a', 'xy']
 TYPES = ['signal', 'method_call', 'method_return', 'error']
+
+
+class _Quit(BaseException):
+    """What a callback raises when it is not an Exception (compare SystemExit, KeyboardInterrupt, CancelledError)."""
 
 
 def _mk_message(MSG, m):
@@ -115,7 +120,9 @@ def run_router(case):
                 def cb(m, idx=idx, r=r):
                     hits.append(idx)
                     if r.get('raises'):
-                        raise RuntimeError('callback %d raises' % idx)
+                        # user callbacks fail in every way Python offers, not only with Exception subclasses
+                        raise {1: RuntimeError, 2: _Quit, 3: SystemExit, 4: GeneratorExit}.get(int(r['raises']), RuntimeError)(
+                            'callback %d raises' % idx)
                 active[idx] = rt.addMatch(cb, **_router_kwargs(r))
             elif op[0] == 'remove':
                 if active:
@@ -127,8 +134,8 @@ def run_router(case):
                 del hits[:]
                 try:
                     rt.routeMessage(msg)
-                except Exception as e:
-                    out.append(Disc(exc_key(e, 'router.raises'), exc_detail(e)))
+                except (Exception, _Quit, SystemExit, GeneratorExit) as e:
+                    out.append(Disc('router.raises:%s' % type(e).__name__, exc_detail(e)))
                     break
                 ab = _abstract_for_oracle(m)
                 for idx in sorted(set(list(active) + hits)):
@@ -207,7 +214,7 @@ def rule(draw):
         r['arg_paths'] = [[idx, draw(st.sampled_from([v for v in ARGVALS if v]))]]
         if draw(st.integers(0, 4)) == 0:
             r['arg_paths'].append([[i for i in (4, 5, 6) if i not in used][0], draw(st.sampled_from([v for v in ARGVALS if v]))])
-    r['raises'] = draw(st.integers(0, 5)) == 0
+    r['raises'] = draw(st.sampled_from([0, 0, 0, 0, 0, 0, 1, 1, 2, 3, 4]))
     return r
 
 
